@@ -4853,4 +4853,736 @@ theorem expired_returns (cfg : Cfg) {s : St} (hi : Inv s) (hc : s.crashed = fals
   rw [if_neg (by rw [hc1, hc]; simp)]
   exact hubFinish_ready_mono _ _ _ _ h1
 
+
+/-! ## Part 10: a timer never fires before it is due -/
+
+/-- the period of a timer (`Timer._interval`) -/
+def ivl (c : TimerCfg) : Nat := if c.recurring then c.delay else 0
+
+theorem TStar.keep_of_fired {a b : TimerSt} (h : TStar a b) (hf : b.fired = a.fired) :
+    b.next = a.next ∧ (b.final = false → a.final = false) := by
+  induction h with
+  | refl => exact ⟨rfl, id⟩
+  | tail h1 h2 ih =>
+    rename_i b c
+    have m1 := h1.fired_mono
+    have m2 := h2.fired_mono
+    have e1 : b.fired = a.fired := by omega
+    have e2 : c.fired = b.fired := by omega
+    obtain ⟨ihn, ihf⟩ := ih e1
+    cases h2 with
+    | same => exact ⟨ihn, ihf⟩
+    | cancel => exact ⟨ihn, ihf⟩
+    | noticed hc => exact ⟨ihn, fun h => by simp at h⟩
+    | fire now hfin hcan => simp at e2
+
+theorem resumeGen_trace_nt (cfg : Cfg) (s : St) (t : Nat) (tk : Task) (r : Recv) (raw : Val) (hk : ∀ j, tk.kind ≠ .timer j) :
+    (resumeGen cfg s t tk r raw).trace = s.trace ++ [.step t tk.pc s.now r raw tk.wake] := by
+  obtain ⟨kind, pc, rv, re, rf, st, wake, prio⟩ := tk
+  cases kind with
+  | top k => simp only [resumeGen]; split <;> simp
+  | sub k p =>
+    simp only [resumeGen]
+    split
+    · simp
+    · split <;> simp
+  | timer j => exact absurd rfl (hk j)
+
+theorem NF.resumeGen_nt (cfg : Cfg) (s : St) (t : Nat) (tk : Task) (r : Recv) (raw : Val) (hk : ∀ j, tk.kind ≠ .timer j) :
+    NF s (Pox.Recoco.resumeGen cfg s t tk r raw) := by
+  have n0 : NF s { Pox.Recoco.setTask s t (fun k => { k with pc := k.pc + 1, wake := none }) with
+                   trace := s.trace ++ [.step t tk.pc s.now r raw tk.wake] } := by
+    refine ⟨⟨[], ?_, by simp⟩, rfl, fun u => by simp [List.filterMap_append, fireIdx]⟩
+    simp only [setTask_tasks, List.append_nil]
+    refine map_kind_modify _ _ _ ?_; intro _; rfl
+  unfold Pox.Recoco.resumeGen
+  simp only
+  split
+  · split
+    · refine NF.of_after ?_ n0; exact NF.same rfl rfl rfl
+    · refine NF.of_after ?_ n0; exact NF.topOut _ t _
+  · split
+    · refine NF.of_after ?_ n0; exact NF.same rfl rfl rfl
+    · split
+      · refine NF.of_after ?_ n0
+        refine NF.of_after (NF.subOut _ _ t _ _ _) (NF.setTask ?_); intro _; rfl
+      · refine NF.of_after ?_ n0; exact NF.subOut _ _ t _ _ _
+  · rename_i j hkind; exact absurd hkind (hk j)
+
+/-- a cycle that runs a task which is not a timer: no firing, the firing counters stay, and the trace gains at most one step event -/
+theorem cycleExec_nt (cfg : Cfg) (s : St) (t : Nat) (tk : Task) (hr : s.running = some t) (htk : s.tasks[t]? = some tk)
+    (hk : ∀ j, tk.kind ≠ .timer j) :
+    NF s (Pox.Recoco.cycleExec cfg s) ∧
+    (∀ u n x, Ev.fire u n x ∈ (Pox.Recoco.cycleExec cfg s).trace → Ev.fire u n x ∈ s.trace) := by
+  have htk' : ({ s with running := none } : St).tasks[t]? = some tk := htk
+  unfold Pox.Recoco.cycleExec
+  simp only [hr, htk']
+  have hp : NF s (Pox.Recoco.execPre cfg { s with running := none } t tk).2 :=
+    NF.of_after (NF.execPre cfg _ t tk) (NF.same rfl rfl rfl)
+  have htr := execPre_trace cfg { s with running := none } t tk
+  have hctl := execPre_ctl cfg { s with running := none } t tk
+  split
+  · rename_i s1 he; rw [he] at hp htr
+    exact ⟨hp, fun u n x h => by rw [show s1.trace = s.trace from htr] at h; exact h⟩
+  · rename_i e s1 he; rw [he] at hp htr
+    have hp' : NF s s1 := hp
+    exact ⟨NF.of_after (NF.setStatus s1 t .dead) hp', fun u n x h => by
+      rw [show (setStatus s1 t .dead).trace = s.trace from htr] at h; exact h⟩
+  · rename_i r s1 he; rw [he] at hp htr hctl
+    have hp' : NF s s1 := hp
+    have htr' : s1.trace = s.trace := htr
+    split
+    · exact ⟨NF.of_after (b := s1) (NF.same rfl rfl rfl) hp', fun u n x h => by
+        rw [show ({ s1 with crashed := true } : St).trace = s.trace from htr'] at h; exact h⟩
+    · rename_i tk1 htk1
+      have hk1 : ∀ j, tk1.kind ≠ .timer j := by
+        have e1 := ctl_get htk1
+        have e2 := ctl_get (l := s.tasks) htk
+        have hctl' : s1.tasks.map ctl = s.tasks.map ctl := hctl
+        rw [hctl', e2] at e1
+        simp only [ctl, Option.some.injEq, Prod.mk.injEq] at e1
+        intro j; rw [← e1.1]; exact hk j
+      refine ⟨NF.of_after (NF.resumeGen_nt cfg s1 t tk1 r tk.rv hk1) hp', fun u n x h => ?_⟩
+      rw [resumeGen_trace_nt cfg s1 t tk1 r tk.rv hk1, htr'] at h
+      rcases List.mem_append.mp h with h | h
+      · exact h
+      · simp at h
+
+
+/-- `ex`: the timer task that is in the middle of its step (its wake time has been consumed) -/
+structure TNIx (t0 : Nat) (cfgs : List TimerCfg) (ex : Option Nat) (s : St) : Prop where
+  next : ∀ (j : Nat) (tm : TimerSt), s.timers[j]? = some tm → ∃ c, cfgs[j]? = some c ∧ tm.cfg = c ∧ t0 + c.delay + tm.fired * ivl c ≤ tm.next
+  task : ∀ (t j : Nat) (tk : Task) (tm : TimerSt), s.tasks[t]? = some tk → tk.kind = .timer j → s.timers[j]? = some tm →
+           tk.rf = none ∧ (ex ≠ some t → tk.st = .live → tm.final = false → 0 < tk.pc → tk.wake = some (tm.next, false))
+  fires : ∀ (t n x : Nat), Ev.fire t n x ∈ s.trace →
+            ∃ j c, kdL s.tasks t = some (.timer j) ∧ cfgs[j]? = some c ∧ t0 + c.delay + n * ivl c ≤ x
+  rf : ∀ (t j : Nat) (tk : Task), s.tasks[t]? = some tk → tk.kind = .timer j → tk.rf = none
+
+theorem get_of_map_eq {β} {g : Task → β} {l l' : List Task} (h : l'.map g = l.map g) {t : Nat} {k' : Task} (hk : l'[t]? = some k') :
+    ∃ k, l[t]? = some k ∧ g k = g k' := by
+  have := congrArg (fun m => m[t]?) h
+  simp only [List.getElem?_map, hk, Option.map_some] at this
+  cases hl : l[t]? with
+  | none => simp [hl] at this
+  | some k => simp [hl] at this; exact ⟨k, rfl, this.symm⟩
+
+theorem TNIx.idle {t0 cfgs} (cfg : Cfg) {s : St} (h : TNIx t0 cfgs none s) : TNIx t0 cfgs none (idleStep cfg s) := by
+  have hf := HubFr.idleStep cfg s
+  refine ⟨?_, ?_, ?_, ?_⟩
+  · intro j tm htm; rw [hf.timers] at htm; exact h.next j tm htm
+  · intro t j tk' tm htk hkind htm
+    rw [hf.timers] at htm
+    obtain ⟨tk, htk0, he⟩ := get_of_map_eq hf.tasks htk
+    have e : tk'.kind = tk.kind ∧ tk'.rf = tk.rf ∧ tk'.st = tk.st ∧ tk'.pc = tk.pc ∧ tk'.wake = tk.wake := by
+      simp only [eraseRv, Task.mk.injEq] at he
+      exact ⟨he.1.symm, he.2.2.2.2.1.symm, he.2.2.2.2.2.1.symm, he.2.1.symm, he.2.2.2.2.2.2.1.symm⟩
+    have := h.task t j tk tm htk0 (by rw [← e.1]; exact hkind) htm
+    rw [e.2.1, e.2.2.1, e.2.2.2.1, e.2.2.2.2]; exact this
+  · intro t n x hm
+    rw [hf.trace] at hm
+    obtain ⟨j, c, hk, hc, hb⟩ := h.fires t n x hm
+    refine ⟨j, c, ?_, hc, hb⟩
+    have e : ∀ l : List Task, kdL l t = ((l.map eraseRv)[t]?).map (·.kind) := by
+      intro l; simp only [kdL, List.getElem?_map]; cases l[t]? <;> rfl
+    rw [e, hf.tasks, ← e]; exact hk
+  · intro t j tk' htk hkind
+    obtain ⟨tk, htk0, he⟩ := get_of_map_eq hf.tasks htk
+    simp only [eraseRv, Task.mk.injEq] at he
+    rw [← he.2.2.2.2.1]; exact h.rf t j tk htk0 (by rw [he.1]; exact hkind)
+
+/-- a cycle that runs a task which is not a timer -/
+theorem TNIx.cycle_nt {t0 cfgs} (cfg : Cfg) {s : St} (h : TNIx t0 cfgs none s) (t : Nat) (tk : Task) (hr : s.running = some t)
+    (htk : s.tasks[t]? = some tk) (hk : ∀ j, tk.kind ≠ .timer j) : TNIx t0 cfgs none (Pox.Recoco.cycleExec cfg s) := by
+  obtain ⟨hnf, hfire⟩ := cycleExec_nt cfg s t tk hr htk hk
+  have htf := TFr.cycleExec cfg s
+  have hcf := CycFr.cycleExec cfg s t hr
+  obtain ⟨ext, hkinds, hext⟩ := hnf.kinds
+  have hkd := kdL_of_kinds hkinds hext
+  have timer_back : ∀ (j : Nat) (tm' : TimerSt), (Pox.Recoco.cycleExec cfg s).timers[j]? = some tm' →
+      ∃ tm : TimerSt, s.timers[j]? = some tm ∧ tm'.cfg = tm.cfg ∧ tm'.fired = tm.fired ∧ tm'.next = tm.next ∧ (tm'.final = false → tm.final = false) := by
+    intro j tm' htm'
+    have hlt : j < s.timers.length := by rw [← htf.1]; exact (List.getElem?_eq_some_iff.mp htm').1
+    obtain ⟨tm, htm⟩ : ∃ tm, s.timers[j]? = some tm := ⟨_, List.getElem?_eq_getElem hlt⟩
+    have hstar := htf.2 j tm tm' htm htm'
+    have hfm : ((Pox.Recoco.cycleExec cfg s).timers.map (·.fired))[j]? = some tm'.fired := by simp [htm']
+    rw [hnf.fired] at hfm
+    simp only [List.getElem?_map, htm, Option.map_some, Option.some.injEq] at hfm
+    have := hstar.keep_of_fired hfm.symm
+    exact ⟨tm, htm, hstar.cfg, hfm.symm, this.1, this.2⟩
+  refine ⟨?_, ?_, ?_, ?_⟩
+  · intro j tm' htm'
+    obtain ⟨tm, htm, hc, hf, hn, _⟩ := timer_back j tm' htm'
+    obtain ⟨c, hcc, hcfg, hb⟩ := h.next j tm htm
+    exact ⟨c, hcc, hc.trans hcfg, by rw [hf, hn]; exact hb⟩
+  · intro u j tk' tm' htk' hkind htm'
+    obtain ⟨tm, htm, _, _, hn, hfin⟩ := timer_back j tm' htm'
+    have hku : kdL (Pox.Recoco.cycleExec cfg s).tasks u = some (.timer j) := by rw [kdL_of_get htk', hkind]
+    by_cases hlt : u < s.tasks.length
+    · have hku0 : kdL s.tasks u = some (.timer j) := by rw [← (hkd u).1 hlt]; exact hku
+      have hne : u ≠ t := by
+        rintro rfl
+        rw [kdL_of_get htk] at hku0
+        simp only [Option.some.injEq] at hku0
+        exact hk j hku0
+      have h2 := hcf.ctl u hne hlt
+      simp only [List.getElem?_map, htk', Option.map_some] at h2
+      cases hu0 : s.tasks[u]? with
+      | none => simp [hu0] at h2
+      | some tk0 =>
+        simp only [hu0, Option.map_some, Option.some.injEq, ctl2, Prod.mk.injEq] at h2
+        have := h.task u j tk0 tm hu0 (by rw [← h2.1]; exact hkind) htm
+        rw [h2.2.2.2.2.2, h2.2.2.1, h2.2.1, h2.2.2.2.1, hn]
+        exact ⟨this.1, fun _ hl hf hp => this.2 (by simp) hl (hfin hf) hp⟩
+    · exact absurd hku ((hkd u).2 (by omega) j)
+  · intro u n x hm
+    obtain ⟨j, c, hk0, hc, hb⟩ := h.fires u n x (hfire u n x hm)
+    refine ⟨j, c, ?_, hc, hb⟩
+    have hlt : u < s.tasks.length := by
+      simp only [kdL] at hk0
+      cases hu : s.tasks[u]? with
+      | none => simp [hu] at hk0
+      | some _ => exact (List.getElem?_eq_some_iff.mp hu).1
+    rw [(hkd u).1 hlt]; exact hk0
+  · intro u j tk' htk' hkind
+    have hku : kdL (Pox.Recoco.cycleExec cfg s).tasks u = some (.timer j) := by rw [kdL_of_get htk', hkind]
+    by_cases hlt : u < s.tasks.length
+    · have hku0 : kdL s.tasks u = some (.timer j) := by rw [← (hkd u).1 hlt]; exact hku
+      have hne : u ≠ t := by
+        rintro rfl
+        rw [kdL_of_get htk] at hku0
+        simp only [Option.some.injEq] at hku0
+        exact hk j hku0
+      have h2 := hcf.ctl u hne hlt
+      simp only [List.getElem?_map, htk', Option.map_some] at h2
+      cases hu0 : s.tasks[u]? with
+      | none => simp [hu0] at h2
+      | some tk0 =>
+        simp only [hu0, Option.map_some, Option.some.injEq, ctl2, Prod.mk.injEq] at h2
+        rw [h2.2.2.2.2.2]; exact h.rf u j tk0 hu0 (by rw [← h2.1]; exact hkind)
+    · exact absurd hku ((hkd u).2 (by omega) j)
+
+
+theorem kdL_modify_kind {l : List Task} {u t : Nat} {f : Task → Task} (h : ∀ k, (f k).kind = k.kind) : kdL (l.modify u f) t = kdL l t := by
+  rw [kdL_modify h]
+
+/-- the exempt task's record is rewritten (its step is over) -/
+theorem TNIx.finish {t0 cfgs} {σ σ' : St} {t : Nat} (f : Task → Task) (hx : TNIx t0 cfgs (some t) σ)
+    (h1 : σ'.timers = σ.timers) (h2 : σ'.trace = σ.trace) (h3 : σ'.tasks = σ.tasks.modify t f)
+    (hk : ∀ k, (f k).kind = k.kind) (hrf : ∀ k, (f k).rf = k.rf)
+    (ht : ∀ tk j tm, σ.tasks[t]? = some tk → tk.kind = .timer j → σ.timers[j]? = some tm → (f tk).st = .live → tm.final = false →
+            (f tk).wake = some (tm.next, false)) : TNIx t0 cfgs none σ' := by
+  refine ⟨?_, ?_, ?_, ?_⟩
+  · intro j tm htm; rw [h1] at htm; exact hx.next j tm htm
+  · intro u j tk' tm htk' hkind htm
+    rw [h1] at htm
+    rw [h3, List.getElem?_modify] at htk'
+    cases hu : σ.tasks[u]? with
+    | none => simp [hu] at htk'
+    | some tk0 =>
+      simp only [hu, Option.map_eq_map, Option.map_some, Option.some.injEq] at htk'
+      by_cases e : t = u
+      · subst e
+        simp only [if_true] at htk'; subst htk'
+        have hk0 : tk0.kind = .timer j := by rw [← hk]; exact hkind
+        refine ⟨by rw [hrf]; exact (hx.task t j tk0 tm hu hk0 htm).1, fun _ hl hf _ => ht tk0 j tm hu hk0 htm hl hf⟩
+      · simp only [e, if_false] at htk'; subst htk'
+        have := hx.task u j tk0 tm hu hkind htm
+        exact ⟨this.1, fun _ => this.2 (by simp; exact fun h => e h)⟩
+  · intro u n x hm
+    rw [h2] at hm
+    obtain ⟨j, c, hkd, hc, hb⟩ := hx.fires u n x hm
+    exact ⟨j, c, by rw [h3, kdL_modify_kind hk]; exact hkd, hc, hb⟩
+  · intro u j tk' htk' hkind
+    rw [h3, List.getElem?_modify] at htk'
+    cases hu : σ.tasks[u]? with
+    | none => simp [hu] at htk'
+    | some tk0 =>
+      simp only [hu, Option.map_eq_map, Option.map_some, Option.some.injEq] at htk'
+      by_cases e : t = u
+      · simp only [e, if_true] at htk'; subst htk'
+        rw [hrf]; exact hx.rf u j tk0 hu (by rw [← hk]; exact hkind)
+      · simp only [e, if_false] at htk'; subst htk'
+        exact hx.rf u j tk0 hu hkind
+
+/-- the exempt timer task's timer record is rewritten, possibly with a firing -/
+theorem TNIx.setTimer {t0 cfgs} {σ σ' : St} {t j : Nat} {tm : TimerSt} (f : TimerSt → TimerSt) (tm' : TimerSt) (hf : f tm = tm') (hx : TNIx t0 cfgs (some t) σ)
+    (huniq : ∀ u tku, σ.tasks[u]? = some tku → tku.kind = .timer j → u = t)
+    (htm : σ.timers[j]? = some tm) (h1 : σ'.timers = σ.timers.modify j f) (h3 : σ'.tasks = σ.tasks)
+    (hcfg : tm'.cfg = tm.cfg)
+    (hb : ∀ c, tm.cfg = c → t0 + c.delay + tm.fired * ivl c ≤ tm.next → t0 + c.delay + tm'.fired * ivl c ≤ tm'.next)
+    (h2 : σ'.trace = σ.trace ∨ ∃ n x, σ'.trace = σ.trace ++ [.fire t n x] ∧ kdL σ.tasks t = some (.timer j) ∧
+            ∀ c, tm.cfg = c → t0 + c.delay + tm.fired * ivl c ≤ tm.next → t0 + c.delay + n * ivl c ≤ x) :
+    TNIx t0 cfgs (some t) σ' := by
+  obtain ⟨c0, hc0, hcfg0, hb0⟩ := hx.next j tm htm
+  refine ⟨?_, ?_, ?_, fun u i tk' htk' hkind => hx.rf u i tk' (by rw [← h3]; exact htk') hkind⟩
+  · intro i m hm
+    rw [h1, List.getElem?_modify] at hm
+    by_cases e : j = i
+    · subst e
+      simp only [htm, Option.map_eq_map, Option.map_some, if_true, Option.some.injEq] at hm; subst hm
+      rw [hf]
+      exact ⟨c0, hc0, hcfg.trans hcfg0, hb c0 hcfg0 hb0⟩
+    · cases hi : σ.timers[i]? with
+      | none => simp [hi] at hm
+      | some mi => simp [hi, e] at hm; subst hm; exact hx.next i mi hi
+  · intro u i tk' m htk' hkind hm
+    rw [h3] at htk'
+    rw [h1, List.getElem?_modify] at hm
+    by_cases e : j = i
+    · subst e
+      have : u = t := huniq u tk' htk' hkind
+      subst this
+      exact ⟨(hx.task u j tk' tm htk' hkind htm).1, fun hne => absurd rfl hne⟩
+    · cases hi : σ.timers[i]? with
+      | none => simp [hi] at hm
+      | some mi => simp [hi, e] at hm; subst hm; exact hx.task u i tk' mi htk' hkind hi
+  · intro u n x hm
+    rcases h2 with h2 | ⟨n0, x0, h2, hkt, hbf⟩
+    · rw [h2] at hm
+      obtain ⟨i, c, hkd, hc, hb'⟩ := hx.fires u n x hm
+      exact ⟨i, c, by rw [h3]; exact hkd, hc, hb'⟩
+    · rw [h2] at hm
+      rcases List.mem_append.mp hm with hm | hm
+      · obtain ⟨i, c, hkd, hc, hb'⟩ := hx.fires u n x hm
+        exact ⟨i, c, by rw [h3]; exact hkd, hc, hb'⟩
+      · simp only [List.mem_singleton, Ev.fire.injEq] at hm
+        obtain ⟨rfl, rfl, rfl⟩ := hm
+        exact ⟨j, c0, by rw [h3]; exact hkt, hc0, hbf c0 hcfg0 hb0⟩
+
+theorem doYield_sleepAbs_frame (σ : St) (t w : Nat) :
+    (doYield σ t (.sleepAbs w)).tasks = σ.tasks.modify t (fun k => { k with wake := some (w, false) }) ∧
+    (doYield σ t (.sleepAbs w)).timers = σ.timers ∧ (doYield σ t (.sleepAbs w)).trace = σ.trace := by
+  simp only [doYield]
+  split
+  · unfold fastSchedule; split <;> exact ⟨rfl, rfl, rfl⟩
+  · exact ⟨by simp [registerSelect, HubEntry.hasFds], rfl, rfl⟩
+
+
+theorem timerStep_tni {t0 cfgs} (σ : St) (t j pc : Nat) (tm : TimerSt) (tk2 : Task)
+    (hx : TNIx t0 cfgs (some t) σ)
+    (huniq : ∀ u tku, σ.tasks[u]? = some tku → tku.kind = .timer j → u = t)
+    (htm : σ.timers[j]? = some tm) (ht2 : σ.tasks[t]? = some tk2) (hk2 : tk2.kind = .timer j)
+    (hdue : pc ≠ 0 → tm.final = false → tm.next ≤ σ.now) :
+    TNIx t0 cfgs none (timerStep σ t j pc) := by
+  have hkd : kdL σ.tasks t = some (.timer j) := by simp [kdL, ht2, hk2]
+  unfold Pox.Recoco.timerStep
+  simp only [htm]
+  split
+  · rename_i hfin
+    refine TNIx.finish (fun k => { k with st := .done }) hx rfl rfl rfl (fun _ => rfl) (fun _ => rfl) ?_
+    intro tk j' tm' _ _ _ hl; cases hl
+  · rename_i hfin
+    split
+    · refine TNIx.finish (t := t) id (σ := { σ with timers := σ.timers.modify j (fun m => { m with final := true }) }) ?_ rfl rfl (by simp) (fun _ => rfl) (fun _ => rfl) ?_
+      · exact TNIx.setTimer (fun m => { m with final := true }) { tm with final := true } rfl hx huniq htm rfl rfl rfl (fun c _ h => h) (Or.inl rfl)
+      · intro tk j' tm' htk hkj htm' _ hf
+        rw [ht2] at htk; cases htk
+        rw [hk2] at hkj; cases hkj
+        simp [List.getElem?_modify, htm] at htm'; subst htm'; cases hf
+    · split
+      · obtain ⟨h1, h2, h3⟩ := doYield_sleepAbs_frame σ t tm.next
+        refine TNIx.finish _ hx h2 h3 h1 (fun _ => rfl) (fun _ => rfl) ?_
+        intro tk j' tm' htk hkj htm' _ _
+        rw [ht2] at htk; cases htk
+        rw [hk2] at hkj; cases hkj
+        rw [htm] at htm'; cases htm'; rfl
+      · rename_i hcan hpc
+        have hnext : tm.next ≤ σ.now := hdue hpc (by simpa using hfin)
+        have hx3 : TNIx t0 cfgs (some t) { σ with
+              timers := σ.timers.modify j (fun m => { m with
+                next := σ.now + (if tm.cfg.recurring then tm.cfg.delay else 0), fired := m.fired + 1 }),
+              trace := σ.trace ++ [.fire t tm.fired σ.now] } := by
+          refine TNIx.setTimer _ { tm with next := σ.now + (if tm.cfg.recurring then tm.cfg.delay else 0), fired := tm.fired + 1 } rfl hx huniq htm rfl rfl rfl ?_ (Or.inr ⟨tm.fired, σ.now, rfl, hkd, ?_⟩)
+          · intro c hc hb; subst hc
+            simp only [ivl] at hb ⊢
+            rw [Nat.add_mul]; omega
+          · intro c hc hb; omega
+        have htm3 : ({ σ with
+              timers := σ.timers.modify j (fun m => { m with
+                next := σ.now + (if tm.cfg.recurring then tm.cfg.delay else 0), fired := m.fired + 1 }),
+              trace := σ.trace ++ [.fire t tm.fired σ.now] } : St).timers[j]? =
+            some { tm with next := σ.now + (if tm.cfg.recurring then tm.cfg.delay else 0), fired := tm.fired + 1 } := by
+          simp [List.getElem?_modify, htm]
+        split
+        · refine TNIx.finish (t := t) id (σ := { σ with
+              timers := (σ.timers.modify j (fun m => { m with
+                next := σ.now + (if tm.cfg.recurring then tm.cfg.delay else 0), fired := m.fired + 1 })).modify j (fun m => { m with final := true }),
+              trace := σ.trace ++ [.fire t tm.fired σ.now] }) ?_ rfl rfl (by simp) (fun _ => rfl) (fun _ => rfl) ?_
+          · exact TNIx.setTimer (fun m => { m with final := true }) _ rfl hx3 huniq htm3 rfl rfl rfl (fun c _ h => h) (Or.inl rfl)
+          · intro tk j' tm' htk hkj htm' _ hf
+            rw [ht2] at htk; cases htk
+            rw [hk2] at hkj; cases hkj
+            simp [List.getElem?_modify, htm] at htm'; subst htm'; cases hf
+        · obtain ⟨h1, h2, h3⟩ := doYield_sleepAbs_frame { σ with
+              timers := σ.timers.modify j (fun m => { m with
+                next := σ.now + (if tm.cfg.recurring then tm.cfg.delay else 0), fired := m.fired + 1 }),
+              trace := σ.trace ++ [.fire t tm.fired σ.now] } t (σ.now + (if tm.cfg.recurring then tm.cfg.delay else 0))
+          refine TNIx.finish _ hx3 h2 h3 h1 (fun _ => rfl) (fun _ => rfl) ?_
+          intro tk j' tm' htk hkj htm' _ _
+          rw [ht2] at htk; cases htk
+          rw [hk2] at hkj; cases hkj
+          rw [htm3] at htm'; cases htm'; rfl
+
+
+theorem timerStep_tni' {t0 cfgs} (σ : St) (t j pc : Nat) (tk2 : Task)
+    (hx : TNIx t0 cfgs (some t) σ)
+    (huniq : ∀ u tku, σ.tasks[u]? = some tku → tku.kind = .timer j → u = t)
+    (ht2 : σ.tasks[t]? = some tk2) (hk2 : tk2.kind = .timer j)
+    (hdue : ∀ tm, σ.timers[j]? = some tm → pc ≠ 0 → tm.final = false → tm.next ≤ σ.now) :
+    TNIx t0 cfgs none (timerStep σ t j pc) := by
+  cases htm : σ.timers[j]? with
+  | some tm => exact timerStep_tni σ t j pc tm tk2 hx huniq htm ht2 hk2 (hdue tm htm)
+  | none =>
+    unfold Pox.Recoco.timerStep
+    simp only [htm]
+    refine TNIx.finish (t := t) id hx rfl rfl (by simp) (fun _ => rfl) (fun _ => rfl) ?_
+    intro tk j' tm' htk hkj htm'
+    rw [ht2] at htk; cases htk
+    rw [hk2] at hkj; cases hkj
+    rw [htm] at htm'; cases htm'
+
+/-- the step of task `t` begins: its record is being rewritten, the trace gains no firing -/
+theorem TNIx.start {t0 cfgs} {ex : Option Nat} {σ σ' : St} {t : Nat} (f : Task → Task) (hx : TNIx t0 cfgs ex σ)
+    (hex : ∀ u, ex = some u → u = t)
+    (h1 : σ'.timers = σ.timers) (h2 : ∀ u n x, Ev.fire u n x ∈ σ'.trace → Ev.fire u n x ∈ σ.trace)
+    (h3 : σ'.tasks = σ.tasks.modify t f)
+    (hk : ∀ k, (f k).kind = k.kind) (hrf : ∀ k, (f k).rf = k.rf) : TNIx t0 cfgs (some t) σ' := by
+  refine ⟨?_, ?_, ?_, ?_⟩
+  · intro j tm htm; rw [h1] at htm; exact hx.next j tm htm
+  · intro u j tk' tm htk' hkind htm
+    rw [h1] at htm
+    rw [h3, List.getElem?_modify] at htk'
+    cases hu : σ.tasks[u]? with
+    | none => simp [hu] at htk'
+    | some tk0 =>
+      simp only [hu, Option.map_eq_map, Option.map_some, Option.some.injEq] at htk'
+      by_cases e : t = u
+      · subst e
+        simp only [if_true] at htk'; subst htk'
+        have hk0 : tk0.kind = .timer j := by rw [← hk]; exact hkind
+        exact ⟨by rw [hrf]; exact (hx.task t j tk0 tm hu hk0 htm).1, fun hne => absurd rfl hne⟩
+      · simp only [e, if_false] at htk'; subst htk'
+        have := hx.task u j tk0 tm hu hkind htm
+        exact ⟨this.1, fun _ => this.2 (fun h' => e (hex u h').symm)⟩
+  · intro u n x hm
+    obtain ⟨j, c, hkd, hc, hb⟩ := hx.fires u n x (h2 u n x hm)
+    exact ⟨j, c, by rw [h3, kdL_modify_kind hk]; exact hkd, hc, hb⟩
+  · intro u j tk' htk' hkind
+    rw [h3, List.getElem?_modify] at htk'
+    cases hu : σ.tasks[u]? with
+    | none => simp [hu] at htk'
+    | some tk0 =>
+      simp only [hu, Option.map_eq_map, Option.map_some, Option.some.injEq] at htk'
+      by_cases e : t = u
+      · simp only [e, if_true] at htk'; subst htk'
+        rw [hrf]; exact hx.rf u j tk0 hu (by rw [← hk]; exact hkind)
+      · simp only [e, if_false] at htk'; subst htk'
+        exact hx.rf u j tk0 hu hkind
+
+/-- the generator stage of a timer task whose wake time has passed -/
+theorem tni_resume_timer {t0 cfgs} (cfg : Cfg) {s : St} (h : TNIx t0 cfgs none s) (hfi : FI s) (t j : Nat) (tk : Task)
+    (htk : s.tasks[t]? = some tk) (hkind : tk.kind = .timer j) (hlive : tk.st = .live)
+    (hdue : ∀ w, tk.wake = some (w, false) → w ≤ s.now)
+    (g : Task → Task) (hg : ∀ k, (g k).kind = k.kind ∧ (g k).pc = k.pc ∧ (g k).rf = k.rf)
+    (r : Recv) (raw : Val) :
+    TNIx t0 cfgs none (resumeGen cfg (setTask { s with running := none } t g) t (g tk) r raw) := by
+  have hgk : (g tk).kind = .timer j := by rw [(hg tk).1]; exact hkind
+  unfold Pox.Recoco.resumeGen
+  simp only [hgk]
+  have hx1 : TNIx t0 cfgs (some t) (setTask { s with running := none } t g) :=
+    TNIx.start g h (fun _ h' => by cases h') rfl (fun _ _ _ h' => h') rfl (fun k => (hg k).1) (fun k => (hg k).2.2)
+  have hx2 : TNIx t0 cfgs (some t) { setTask (setTask { s with running := none } t g) t (fun k => { k with pc := k.pc + 1, wake := none }) with
+      trace := (setTask { s with running := none } t g).trace ++ [.step t (g tk).pc (setTask { s with running := none } t g).now r raw (g tk).wake] } := by
+    refine TNIx.start (fun k => { k with pc := k.pc + 1, wake := none }) hx1 (fun _ h' => by cases h'; rfl) rfl ?_ rfl (fun _ => rfl) (fun _ => rfl)
+    intro u n x hm
+    rcases List.mem_append.mp hm with hm | hm
+    · exact hm
+    · simp at hm
+  refine timerStep_tni' _ t j _ { g tk with pc := (g tk).pc + 1, wake := none } hx2 ?_ ?_ hgk ?_
+  · intro u tku hu hku
+    have h1 : kdL s.tasks u = some (.timer j) := by
+      have := kdL_of_get hu
+      simp only [setTask_tasks] at this
+      rw [kdL_modify_kind (f := fun k => { k with pc := k.pc + 1, wake := none }) (fun _ => rfl), kdL_modify_kind (fun k => (hg k).1), hku] at this
+      exact this
+    exact hfi.uniq u t j h1 (by rw [kdL_of_get htk, hkind])
+  · simp [List.getElem?_modify, htk]
+  · intro tm htm hpc hfin
+    have htm' : s.timers[j]? = some tm := htm
+    have := (h.task t j tk tm htk hkind htm').2 (by simp) hlive hfin (by rw [(hg tk).2.1] at hpc; omega)
+    exact hdue tm.next this
+
+/-- a cycle that runs a timer task whose wake time has passed -/
+theorem TNIx.cycle_timer {t0 cfgs} (cfg : Cfg) {s : St} (h : TNIx t0 cfgs none s) (hfi : FI s) (t j : Nat) (tk : Task)
+    (hr : s.running = some t) (htk : s.tasks[t]? = some tk) (hkind : tk.kind = .timer j) (hlive : tk.st = .live)
+    (hdue : ∀ w, tk.wake = some (w, false) → w ≤ s.now) : TNIx t0 cfgs none (Pox.Recoco.cycleExec cfg s) := by
+  have hrf := h.rf t j tk htk hkind
+  have htk' : ({ s with running := none } : St).tasks[t]? = some tk := htk
+  unfold Pox.Recoco.cycleExec
+  simp only [hr, htk']
+  unfold Pox.Recoco.execPre
+  simp only [hrf]
+  cases hre : tk.re with
+  | none =>
+    simp only [setTask_tasks, List.getElem?_modify, htk, if_true, Option.map_eq_map, Option.map_some]
+    exact tni_resume_timer cfg h hfi t j tk htk hkind hlive hdue (fun k => { k with rv := .none }) (fun _ => ⟨rfl, rfl, rfl⟩) _ _
+  | some e =>
+    simp only [setTask_tasks, List.getElem?_modify, htk, if_true, Option.map_eq_map, Option.map_some]
+    exact tni_resume_timer cfg h hfi t j tk htk hkind hlive hdue (fun k => { k with re := none }) (fun _ => ⟨rfl, rfl, rfl⟩) _ _
+
+
+theorem TNIx.same {t0 cfgs ex} {σ σ' : St} (h : TNIx t0 cfgs ex σ) (h1 : σ'.tasks = σ.tasks) (h2 : σ'.timers = σ.timers)
+    (h3 : σ'.trace = σ.trace) : TNIx t0 cfgs ex σ' :=
+  ⟨fun j tm htm => h.next j tm (by rw [← h2]; exact htm),
+   fun t j tk tm htk hk htm => h.task t j tk tm (by rw [← h1]; exact htk) hk (by rw [← h2]; exact htm),
+   fun t n x hm => by rw [h1]; exact h.fires t n x (by rw [← h3]; exact hm),
+   fun t j tk htk hk => h.rf t j tk (by rw [← h1]; exact htk) hk⟩
+
+theorem TNIx.cycle {t0 cfgs} (cfg : Cfg) {s : St} (hi : Inv s) (hne : NE s) (hfi : FI s) (h : TNIx t0 cfgs none s) :
+    TNIx t0 cfgs none (Pox.Recoco.cycle cfg s) := by
+  cases hl : lottery s.tasks s.draws s.ready with
+  | none =>
+    have e : Pox.Recoco.cycle cfg s = { s with cycles := s.cycles + 1 } := by
+      simp [Pox.Recoco.cycle, cyclePop, hne.1, hl, Pox.Recoco.cycleExec]
+    rw [e]; exact h.same rfl rfl rfl
+  | some res =>
+    obtain ⟨t, rest, ds'⟩ := res
+    rw [cycle_pop cfg s t rest ds' hne.1 hl]
+    have hp : TNIx t0 cfgs none (popped s t rest ds') := h.same rfl rfl rfl
+    have hfp : FI (popped s t rest ds') := hfi.nf (NF.same rfl rfl rfl)
+    have hmem : t ∈ s.ready := (lottery_perm _ _ _ hl).mem_iff.mp List.mem_cons_self
+    cases htk : s.tasks[t]? with
+    | none =>
+      have htk' : ({ popped s t rest ds' with running := none } : St).tasks[t]? = none := htk
+      have e : Pox.Recoco.cycleExec cfg (popped s t rest ds') = { { popped s t rest ds' with running := none } with crashed := true } := by
+        simp only [Pox.Recoco.cycleExec, popped, htk]
+      rw [e]; exact hp.same rfl rfl rfl
+    | some tk =>
+      have htkp : (popped s t rest ds').tasks[t]? = some tk := htk
+      by_cases hk : ∃ j, tk.kind = .timer j
+      · obtain ⟨j, hk⟩ := hk
+        refine hp.cycle_timer cfg hfp t j tk rfl htkp hk ?_ ?_
+        · have := hi.ready_live hmem
+          simpa [stL, htk] using this
+        · intro w hw
+          exact hne.2.1.ready t (by simpa using hmem) w false (by simp [wkL, htk, hw]) (Or.inl rfl)
+      · exact hp.cycle_nt cfg t tk rfl htkp (fun j hj => hk ⟨j, hj⟩)
+
+theorem TNIx.iter {t0 cfgs} (cfg : Cfg) {s : St} (hi : Inv s) (hne : NE s) (hfi : FI s) (h : TNIx t0 cfgs none s) :
+    TNIx t0 cfgs none (Pox.Recoco.iter cfg s) := by
+  unfold Pox.Recoco.iter
+  have h1 := h.idle cfg
+  have hi1 := hi.idleStep cfg
+  have hne1 := hne.idleStep cfg hi
+  have hfi1 : FI (idleStep cfg s) := by
+    have hf := HubFr.idleStep cfg s
+    refine hfi.nf ⟨⟨[], ?_, by simp⟩, by rw [hf.timers], fun _ => by rw [hf.trace]⟩
+    have e : ∀ l : List Task, l.map (·.kind) = (l.map eraseRv).map (·.kind) := by intro l; simp [eraseRv]
+    rw [List.append_nil, e, e s.tasks, hf.tasks]
+  split
+  · exact h
+  · simp only []
+    split
+    · exact h1
+    · exact h1.cycle cfg hi1 hne1 hfi1
+
+theorem TNIx.run {t0 cfgs} (cfg : Cfg) : ∀ (n : Nat) {s : St}, Inv s → NE s → FI s → TNIx t0 cfgs none s →
+    TNIx t0 cfgs none (Pox.Recoco.run cfg n s)
+  | 0, _, _, _, _, h => h
+  | n + 1, _, hi, hne, hfi, h => TNIx.run cfg n (hi.iter cfg) (hne.iter cfg hi) (hfi.iter cfg) (h.iter cfg hi hne hfi)
+
+theorem TNIx.init (t0 : Nat) (tasks : List Nat) (timers : List TimerCfg) (ss rs : List (Option Nat)) (ps ds : List Nat) :
+    TNIx t0 timers none (initSt t0 tasks timers ss rs ps ds) := by
+  have hall : ∀ (t : Nat) (tk : Task), (initSt t0 tasks timers ss rs ps ds).tasks[t]? = some tk → tk.rf = none ∧ tk.pc = 0 := by
+    intro t tk h0
+    have h : ((initSt t0 tasks timers ss rs ps ds).tasks.map (fun k => (k.rf, k.pc)))[t]? = some (tk.rf, tk.pc) := by simp [h0]
+    rw [initSt_view (fun k => (k.rf, k.pc)) (fun _ _ => rfl)] at h
+    simp only [List.getElem?_append, List.length_map, List.getElem?_map, List.length_range] at h
+    split at h
+    · cases hx : tasks[t]? with
+      | none => simp [hx] at h
+      | some _ => simp [hx] at h; exact ⟨h.1.symm, h.2.symm⟩
+    · cases hx : (List.range timers.length)[t - tasks.length]? with
+      | none => simp [hx] at h
+      | some _ => simp [hx] at h; exact ⟨h.1.symm, h.2.symm⟩
+  refine ⟨?_, ?_, ?_, ?_⟩
+  · intro j tm htm
+    simp only [initSt, List.getElem?_map] at htm
+    cases hc : timers[j]? with
+    | none => simp [hc] at htm
+    | some c =>
+      simp only [hc, Option.map_some, Option.some.injEq] at htm; subst htm
+      exact ⟨c, rfl, rfl, by simp⟩
+  · intro t j tk tm htk _ _
+    obtain ⟨h1, h2⟩ := hall t tk htk
+    exact ⟨h1, fun _ _ _ hp => by omega⟩
+  · intro t n x hm; simp [initSt] at hm
+  · intro t j tk htk _; exact (hall t tk htk).1
+
+/-- **a timer never fires early**: the `n`-th firing (counted from 0) of a timer with delay `d` happens at or after
+    `t0 + d` (one-shot, or first firing) resp. `t0 + d + n * d` (recurring) -/
+theorem timer_not_early (cfg : Cfg) (t0 : Nat) (tasks : List Nat) (timers : List TimerCfg) (ss rs : List (Option Nat)) (ps ds : List Nat)
+    (n : Nat) (t k x : Nat) (h : Ev.fire t k x ∈ (Pox.Recoco.run cfg n (initSt t0 tasks timers ss rs ps ds)).trace) :
+    ∃ j c, kdL (Pox.Recoco.run cfg n (initSt t0 tasks timers ss rs ps ds)).tasks t = some (.timer j) ∧ timers[j]? = some c ∧
+      t0 + c.delay + k * ivl c ≤ x :=
+  (TNIx.run cfg n (Inv.init t0 tasks timers ss rs ps ds) (NE.init t0 tasks timers ss rs ps ds) (FI.init t0 tasks timers ss rs ps ds)
+    (TNIx.init t0 tasks timers ss rs ps ds)).fires t k x h
+
+
+/-! ## Part 11: whole-cycle forms of the generator-stage lemmas (task without a return function) -/
+
+theorem execPre_rfnone (cfg : Cfg) (s : St) (t : Nat) (tk : Task) (hrf : tk.rf = none) :
+    ∃ g : Task → Task, execPre cfg s t tk = (.resume (pendingRecv tk), setTask s t g) ∧ ∀ k, ctl2 (g k) = ctl2 k := by
+  unfold execPre pendingRecv
+  simp only [hrf]
+  cases tk.re with
+  | none => exact ⟨_, rfl, fun _ => rfl⟩
+  | some e => exact ⟨_, rfl, fun _ => rfl⟩
+
+/-- a cycle whose lottery picks `t` (no return function pending) is: pop `t`, clear what is pending, resume the generator -/
+theorem cycle_resume_plain (cfg : Cfg) (s : St) (t : Nat) (rest ds' : List Nat) (tk : Task) (hrun : s.running = none)
+    (hpop : lottery s.tasks s.draws s.ready = some (t, rest, ds')) (htk : s.tasks[t]? = some tk) (hrf : tk.rf = none) :
+    ∃ g : Task → Task, (∀ k, ctl2 (g k) = ctl2 k) ∧
+      cycle cfg s = resumeGen cfg (setTask { popped s t rest ds' with running := none } t g) t (g tk) (pendingRecv tk) tk.rv := by
+  obtain ⟨g, hpre, hg⟩ := execPre_rfnone cfg { popped s t rest ds' with running := none } t tk hrf
+  refine ⟨g, hg, ?_⟩
+  rw [cycle_pop cfg s t rest ds' hrun hpop]
+  exact cycleExec_resume cfg (popped s t rest ds') _ t tk (g tk) _ rfl htk hpre (by simp [popped, List.getElem?_modify, htk])
+
+theorem cycle_raise (cfg : Cfg) (s : St) (t : Nat) (rest ds' : List Nat) (tk : Task) (k : Nat) (prog : List Y) (e : Exc)
+    (hrun : s.running = none) (hpop : lottery s.tasks s.draws s.ready = some (t, rest, ds')) (htk : s.tasks[t]? = some tk)
+    (hkind : tk.kind = .top k) (hprog : cfg.progs[k]? = some prog) (hrf : tk.rf = none)
+    (hraise : genStep s.timers.length prog tk.pc (pendingRecv tk) = .raise e) :
+    let s' := cycle cfg s
+    s'.ready = rest ∧ s'.running = none ∧ s'.incoming = s.incoming ∧ s'.hub = s.hub ∧ s'.now = s.now ∧
+    s'.hasQuit = s.hasQuit ∧ s'.crashed = s.crashed ∧ s'.timers = s.timers ∧
+    (∀ u, u ≠ t → s'.tasks[u]? = s.tasks[u]?) ∧ stL s'.tasks t = some .dead ∧
+    s'.trace = s.trace ++ [.step t tk.pc s.now (pendingRecv tk) tk.rv tk.wake] := by
+  obtain ⟨g, hg, hc⟩ := cycle_resume_plain cfg s t rest ds' tk hrun hpop htk hrf
+  have h2 := hg tk
+  simp only [ctl2, Prod.mk.injEq] at h2
+  obtain ⟨hk, hpc, _, hwk, _, _⟩ := h2
+  have h1 := resumeGen_raise cfg (setTask { popped s t rest ds' with running := none } t g) t (g tk) k prog e (pendingRecv tk) tk.rv
+    (by simp [popped, List.getElem?_modify, htk]) (by rw [hk]; exact hkind) hprog (by rw [hpc]; exact hraise)
+  simp only [] at h1 ⊢
+  rw [hc]
+  obtain ⟨a1, a2, a3, a4, a5, a6, a7, a8, a9, a10, a11⟩ := h1
+  refine ⟨a1, a2, a3, a4, a5, a6, a7, a8, ?_, a10, ?_⟩
+  · intro u hu
+    rw [a9 u hu]
+    exact getElem?_modify_ne' hu
+  · rw [a11, hpc, hwk]; rfl
+
+theorem cycle_final (cfg : Cfg) (s : St) (c p k : Nat) (rest ds' : List Nat) (tk ptk : Task) (prog : List Y)
+    (hrun : s.running = none) (hpop : lottery s.tasks s.draws s.ready = some (c, rest, ds')) (htk : s.tasks[c]? = some tk)
+    (hkind : tk.kind = .sub k p) (hprog : cfg.progs[k]? = some prog) (hrf : tk.rf = none)
+    (hp : s.tasks[p]? = some ptk) (hpc : p ≠ c) (hnr : p ∉ rest)
+    (hfin : (genStep s.timers.length prog tk.pc (pendingRecv tk)).final = true) :
+    let s' := cycle cfg s
+    let o := genStep s.timers.length prog tk.pc (pendingRecv tk)
+    s'.ready = p :: rest ∧ s'.running = none ∧ s'.incoming = s.incoming ∧ s'.hub = s.hub ∧ s'.now = s.now ∧
+    s'.tasks[p]? = some (deliver cfg.fixEmptySub o tk.pc (if tk.pc = 0 then { ptk with rv := .none } else ptk)) ∧
+    (∀ u, u ≠ c → u ≠ p → s'.tasks[u]? = s.tasks[u]?) ∧ stL s'.tasks c = some .done ∧
+    s'.trace = s.trace ++ [.step c tk.pc s.now (pendingRecv tk) tk.rv tk.wake] := by
+  obtain ⟨g, hg, hc⟩ := cycle_resume_plain cfg s c rest ds' tk hrun hpop htk hrf
+  have h2 := hg tk
+  simp only [ctl2, Prod.mk.injEq] at h2
+  obtain ⟨hk, hpc', _, hwk, _, _⟩ := h2
+  have h1 := resumeGen_final cfg (setTask { popped s c rest ds' with running := none } c g) c p k (g tk) ptk prog (pendingRecv tk) tk.rv
+    (by simp [popped, List.getElem?_modify, htk]) (by rw [hk]; exact hkind) hprog
+    (by simp only [setTask_tasks, popped]; rw [getElem?_modify_ne' hpc]; exact hp) hpc hnr (by rw [hpc']; exact hfin)
+  simp only [] at h1 ⊢
+  rw [hc]
+  obtain ⟨a1, a2, a3, a4, a5, a6, a7, a8, a9⟩ := h1
+  refine ⟨a1, a2, a3, a4, a5, ?_, ?_, a8, ?_⟩
+  · rw [a6, hpc']; rfl
+  · intro u hu hup
+    rw [a7 u hu hup]
+    exact getElem?_modify_ne' hu
+  · rw [a9, hpc', hwk]; rfl
+
+
+theorem cycle_event (cfg : Cfg) (s : St) (t : Nat) (rest ds' : List Nat) (tk : Task) (prog : List Y)
+    (hrun : s.running = none) (hpop : lottery s.tasks s.draws s.ready = some (t, rest, ds')) (htk : s.tasks[t]? = some tk)
+    (hrf : tk.rf = none) (hprog : progOf cfg tk.kind = some prog) :
+    (cycle cfg s).trace = s.trace ++ [.step t tk.pc s.now (pendingRecv tk) tk.rv tk.wake] := by
+  obtain ⟨g, hg, hc⟩ := cycle_resume_plain cfg s t rest ds' tk hrun hpop htk hrf
+  have h2 := hg tk
+  simp only [ctl2, Prod.mk.injEq] at h2
+  obtain ⟨hk, hpc, _, hwk, _, _⟩ := h2
+  rw [hc, resumeGen_event cfg _ t (g tk) prog _ _ (by rw [hk]; exact hprog), hpc, hwk]; rfl
+
+/-- the wake time noted for a top-level task after its step is the one its yield asked for -/
+theorem cycle_wake (cfg : Cfg) (s : St) (t : Nat) (rest ds' : List Nat) (tk : Task) (k : Nat) (prog : List Y) (y : Y)
+    (hrun : s.running = none) (hpop : lottery s.tasks s.draws s.ready = some (t, rest, ds')) (htk : s.tasks[t]? = some tk)
+    (hkind : tk.kind = .top k) (hprog : cfg.progs[k]? = some prog) (hrf : tk.rf = none)
+    (hy : genStep s.timers.length prog tk.pc (pendingRecv tk) = .yield y) :
+    wkL (cycle cfg s).tasks t = reqWake s.now y := by
+  obtain ⟨g, hg, hc⟩ := cycle_resume_plain cfg s t rest ds' tk hrun hpop htk hrf
+  have h2 := hg tk
+  simp only [ctl2, Prod.mk.injEq] at h2
+  obtain ⟨hk, hpc, _, _, _, _⟩ := h2
+  rw [hc]
+  exact resumeGen_wake cfg (setTask { popped s t rest ds' with running := none } t g) t (g tk) k prog y _ _
+    (by simp [popped, List.getElem?_modify, htk]) (by rw [hk]; exact hkind) hprog (by rw [hpc]; exact hy)
+
+/-- the return function of the popped task raises (`Recv`/`Send` on something that is not a select result, or D25): the
+    generator is not resumed, the task is descheduled, nothing else changes (the scripts excepted) -/
+theorem cycle_rf_raised (cfg : Cfg) (s s1 : St) (t : Nat) (rest ds' : List Nat) (tk : Task) (e : Exc)
+    (hrun : s.running = none) (hpop : lottery s.tasks s.draws s.ready = some (t, rest, ds')) (htk : s.tasks[t]? = some tk)
+    (hpre : execPre cfg { popped s t rest ds' with running := none } t tk = (.raised e, s1)) :
+    let s' := cycle cfg s
+    s'.ready = rest ∧ s'.running = none ∧ s'.incoming = s.incoming ∧ s'.hub = s.hub ∧ s'.now = s.now ∧
+    s'.hasQuit = s.hasQuit ∧ s'.crashed = s.crashed ∧ s'.timers = s.timers ∧
+    (∀ u, u ≠ t → s'.tasks[u]? = s.tasks[u]?) ∧ stL s'.tasks t = some .dead ∧ s'.trace = s.trace := by
+  have hs := execPre_same cfg { popped s t rest ds' with running := none } t tk htk _ _ hpre (by simp)
+  simp only []
+  rw [cycle_pop cfg s t rest ds' hrun hpop, cycleExec_raised cfg (popped s t rest ds') s1 t tk e rfl htk hpre]
+  refine ⟨hs.ready, hs.running, hs.incoming, hs.hub, hs.now, hs.hasQuit, hs.crashed, hs.timers, ?_, ?_, hs.trace⟩
+  · intro u hu
+    simp only [setStatus, setTask_tasks]
+    rw [getElem?_modify_ne' hu]; exact hs.others u hu
+  · have := hs.self
+    simp only [setStatus, setTask_tasks, stL, List.getElem?_modify]
+    cases h1 : s1.tasks[t]? with
+    | none => simp [h1] at this
+    | some _ => simp
+
+theorem deliver_ctl (fx : Bool) (o : Out) (pc : Nat) (ptk : Task) :
+    (deliver fx o pc ptk).kind = ptk.kind ∧ (deliver fx o pc ptk).pc = ptk.pc ∧ (deliver fx o pc ptk).rf = ptk.rf ∧
+    (deliver fx o pc ptk).prio = ptk.prio ∧ (deliver fx o pc ptk).wake = ptk.wake := by
+  cases o with
+  | raise e => exact ⟨rfl, rfl, rfl, rfl, rfl⟩
+  | stop => simp only [deliver]; split <;> exact ⟨rfl, rfl, rfl, rfl, rfl⟩
+  | yield y => cases y <;> exact ⟨rfl, rfl, rfl, rfl, rfl⟩
+
+/-- **the caller is resumed next, with the outcome** (caller priority >= 1): two cycles from a state whose lottery picks a
+    sub-task that finishes -/
+theorem again_then_caller (cfg : Cfg) (s : St) (c p k : Nat) (rest ds' : List Nat) (tk ptk : Task) (prog pprog : List Y)
+    (hrun : s.running = none) (hpop : lottery s.tasks s.draws s.ready = some (c, rest, ds')) (htk : s.tasks[c]? = some tk)
+    (hkind : tk.kind = .sub k p) (hprog : cfg.progs[k]? = some prog) (hrf : tk.rf = none)
+    (hp : s.tasks[p]? = some ptk) (hpc : p ≠ c) (hnr : p ∉ rest)
+    (hfin : (genStep s.timers.length prog tk.pc (pendingRecv tk)).final = true)
+    (hprf : ptk.rf = none) (hpprog : progOf cfg ptk.kind = some pprog) (hprio : 8 ≤ ptk.prio) :
+    let o := genStep s.timers.length prog tk.pc (pendingRecv tk)
+    let ptk' := deliver cfg.fixEmptySub o tk.pc (if tk.pc = 0 then { ptk with rv := .none } else ptk)
+    (cycle cfg (cycle cfg s)).trace =
+      s.trace ++ [.step c tk.pc s.now (pendingRecv tk) tk.rv tk.wake, .step p ptk.pc s.now (pendingRecv ptk') ptk'.rv ptk.wake] := by
+  obtain ⟨a1, a2, _, _, a5, a6, _, _, a9⟩ := cycle_final cfg s c p k rest ds' tk ptk prog hrun hpop htk hkind hprog hrf hp hpc hnr hfin
+  simp only [] at a1 a2 a5 a6 a9 ⊢
+  have hd := deliver_ctl cfg.fixEmptySub (genStep s.timers.length prog tk.pc (pendingRecv tk)) tk.pc (if tk.pc = 0 then { ptk with rv := .none } else ptk)
+  have hbase : ∀ (f : Task → Nat), (f = Task.pc ∨ f = Task.prio) → f (if tk.pc = 0 then { ptk with rv := .none } else ptk) = f ptk := by
+    intro f hf; split <;> rcases hf with rfl | rfl <;> rfl
+  have hb1 : (if tk.pc = 0 then { ptk with rv := Val.none } else ptk).kind = ptk.kind := by split <;> rfl
+  have hb2 : (if tk.pc = 0 then { ptk with rv := Val.none } else ptk).rf = ptk.rf := by split <;> rfl
+  have hb3 : (if tk.pc = 0 then { ptk with rv := Val.none } else ptk).wake = ptk.wake := by split <;> rfl
+  have hlot : lottery (cycle cfg s).tasks (cycle cfg s).draws (cycle cfg s).ready = some (p, rest, (cycle cfg s).draws) := by
+    rw [a1]
+    refine lottery_head _ _ _ _ ?_
+    simp only [prioL, a6, hd.2.2.2.1, hbase Task.prio (.inr rfl)]
+    exact hprio
+  rw [cycle_event cfg (cycle cfg s) p rest _ _ pprog a2 hlot a6 (by rw [hd.2.2.1, hb2]; exact hprf) (by rw [hd.1, hb1]; exact hpprog),
+    a9, a5, hd.2.1, hbase Task.pc (.inl rfl), hd.2.2.2.2, hb3]
+  simp
+
 end Pox.Recoco
